@@ -12,7 +12,8 @@
    implementation result.  Not proved: the same for diff and exposure outputs and for dot (parse-back in the
    check); encoding/json and encoding/csv are modelled on the alphabet the analysis produces. *)
 From Coq Require Import List ZArith Bool String Permutation.
-From NP Require Import IntervalSet ConnSet ConnSetProofs World Build Connlist Diff Format SortGeneric FormatProofs StrInj ConnInj RowInj.
+From NP Require Import IntervalSet ConnSet ConnSetProofs World Build Connlist Diff Format SortGeneric FormatProofs StrInj ConnInj RowInj
+     Eval EvalProofs PartitionTiles ModelPrintable.
 Import ListNotations.
 
 Theorem C09_rows_are_exactly_the_entries es : Permutation (rowsort (map row_of es)) (map row_of es).
@@ -84,6 +85,28 @@ Print Assumptions C09_formats_carry_the_same_information.
 Theorem C09_printable_checker_sound es : forallb entry_printableb es = true -> Forall entry_ok es.
 Proof. exact (entries_printable es). Qed.
 Print Assumptions C09_printable_checker_sound.
+
+(* the model's own reports are inside that domain, whatever the policies: names built from blank-free namespace / name /
+   kind strings, blocks of the IPv4 partition, canonical sets *)
+Theorem C09_model_reports_are_printable w focus hi r :
+  list_world w focus hi = Ok r -> world_okb w = true -> forallb pod_okb (w_pods w) = true ->
+  Forall pod_plain (w_pods w) ->
+  (forall bl, referenced_blocks (w_nps w) = Ok bl -> blocks_in_range bl) ->
+  Forall entry_ok (lr_entries r).
+Proof. exact (model_report_printable w focus hi r). Qed.
+Print Assumptions C09_model_reports_are_printable.
+
+(* so two analyses whose outputs coincide in any one format computed the same report *)
+Theorem C09_equal_output_means_equal_report w1 w2 f1 f2 h1 h2 r1 r2 :
+  list_world w1 f1 h1 = Ok r1 -> world_okb w1 = true -> forallb pod_okb (w_pods w1) = true -> Forall pod_plain (w_pods w1) ->
+  (forall bl, referenced_blocks (w_nps w1) = Ok bl -> blocks_in_range bl) ->
+  list_world w2 f2 h2 = Ok r2 -> world_okb w2 = true -> forallb pod_okb (w_pods w2) = true -> Forall pod_plain (w_pods w2) ->
+  (forall bl, referenced_blocks (w_nps w2) = Ok bl -> blocks_in_range bl) ->
+  list_txt (lr_entries r1) = list_txt (lr_entries r2) \/ list_md (lr_entries r1) = list_md (lr_entries r2) \/
+  list_csv (lr_entries r1) = list_csv (lr_entries r2) \/ list_json (lr_entries r1) = list_json (lr_entries r2) ->
+  Permutation (lr_entries r1) (lr_entries r2).
+Proof. exact (model_reports_print_differently w1 w2 f1 f2 h1 h2 r1 r2). Qed.
+Print Assumptions C09_equal_output_means_equal_report.
 
 (* non-vacuity: a report with workloads, an address range, a multi-protocol set and the full set is printable *)
 Example C09_printable_example :
